@@ -113,6 +113,18 @@ static std::string evaluate(zckCtx *z, const Tab &t, const std::vector<int> &val
     return out;
 }
 
+// Markings that contain FAILED chunks (flag -1: bytes arrived or were copied and did not match; the state a download or a copy leaves
+// behind until zck_reset_failed_chunks()).  The statement speaks of valid and missing chunks only, so either reading of a failed
+// chunk is accepted - not requested (what the library does: it waits for the reset) or requested like a missing one - but every
+// other clause (ascending, merged, prefix, limit, rendering, range index) must hold under the reading the request follows.
+static std::string evaluate3(zckCtx *z, const Tab &t, const std::vector<int> &valid, int limit, std::string *sig, bool *nontriv) {
+    std::string e = evaluate(z, t, valid, limit, sig, nontriv); if (e.empty()) return e;
+    bool any = false; std::vector<int> alt = valid; for (auto &x : alt) if (x == -1) { x = 0; any = true; }
+    if (!any) return e;
+    std::string sig2; std::string e2 = evaluate(z, t, alt, limit, &sig2, nontriv); if (e2.empty()) return e2;
+    return e + " [with failed chunks read as missing: " + e2.substr(0, 200) + "]";
+}
+
 static zckCtx *open_hdr(const Bytes &hdr, int *fdp) { int fd = lib::mkfd(hdr); zckCtx *z = zck_create(); if (!zck_init_read(z, fd)) { zck_free(&z); close(fd); return nullptr; } *fdp = fd; return z; }
 static void set_flags(zckCtx *z, const std::vector<int> &v) { size_t i = 0; for (zckChunk *ch = zck_get_first_chunk(z); ch; ch = zck_get_next_chunk(ch), i++) ch->valid = v[i]; }
 
@@ -121,6 +133,21 @@ static const int LIMITS[] = {-1, 0, 1, 2, 3, 7, 127, 255};
 static void prop(Ctx &c) {
     uint64_t mode = c.draw(5);
     std::string sig;
+    if (mode <= 1 && c.gver >= 4 && c.rarely(3)) {
+        // ---- enumerated: all 3^n markings over {valid, missing, failed} x all limits
+        size_t n = 1 + c.draw(c.tier ? 6 : 5); Tab t = make_index(c, n, c.boolean());
+        int fd; zckCtx *z = open_hdr(t.hdr, &fd); if (!z) c.fail("open", "synthetic header does not open");
+        uint64_t evals = 0, nt = 0, total = 1; for (size_t i = 0; i < n; i++) total *= 3; c.desc << "enumerated: " << n << " chunks, all " << total << " markings over valid/missing/failed x 8 limits";
+        for (uint64_t m = 0; m < total; m++) {
+            std::vector<int> v(n + 1, 1); uint64_t x = m; for (size_t i = 0; i < n; i++) { v[i + 1] = (int)(x % 3) - 1; x /= 3; }
+            if (t.len[0] > 0) v[0] = (int)((m * 2654435761u >> 7) % 3) - 1;
+            set_flags(z, v);
+            for (int lim : LIMITS) { bool ntv = false; std::string e = evaluate3(z, t, v, lim, &sig, &ntv); evals++; if (ntv) nt++;
+                if (!e.empty()) { std::string vs; for (int q : v) vs += q == 1 ? "+" : q == 0 ? "0" : "-"; zck_free(&z); close(fd); c.extra_evals = evals; c.fail(sig, e + " [marking " + vs + " limit " + std::to_string(lim) + "]"); } }
+        }
+        zck_free(&z); close(fd); c.extra_evals = evals; c.extra_distinct = nt; c.nontrivial(); c.label("enumerated-with-failed-chunks");
+        return;
+    }
     if (mode <= 1) {
         // ---- enumerated: all markings x all limits
         size_t n = 1 + c.draw(c.tier ? 11 : 9); Tab t = make_index(c, n, c.boolean());
@@ -142,13 +169,15 @@ static void prop(Ctx &c) {
         gen::ZFile b = gen::zfile(c, o); Bytes T = b.file; size_t n = b.nchunks();
         for (size_t i = 0; i < n; i++) if (b.clen(i) && c.boolean()) std::fill(T.begin() + b.off(i), T.begin() + b.off(i) + b.clen(i), 0x5a);
         int fd = lib::mkfd(T); zckCtx *z = zck_create(); if (!zck_init_read(z, fd)) { zck_free(&z); close(fd); c.fail("open", "target does not open"); }
-        (void)!zck_find_valid_chunks(z); zck_reset_failed_chunks(z);
+        bool keep_failed = c.gver >= 4 && c.boolean();
+        (void)!zck_find_valid_chunks(z); if (!keep_failed) zck_reset_failed_chunks(z);
+        else if (c.boolean()) { size_t k = 0; for (zckChunk *ch = zck_get_first_chunk(z); ch; ch = zck_get_next_chunk(ch), k++) if (ch->valid == -1 && ((k * 7 + n) % 3) == 0) ch->valid = 0; }   // a later round: some failed chunks already reset
         Tab t; t.total = b.h.total_size; std::vector<int> v; size_t i = 0;
         for (zckChunk *ch = zck_get_first_chunk(z); ch; ch = zck_get_next_chunk(ch), i++) { t.start.push_back(b.off(i)); t.len.push_back(b.clen(i)); v.push_back(zck_get_chunk_valid(ch)); }
-        int lim = LIMITS[c.pick(8)]; bool ntv = false; std::string vs; for (int x : v) vs += x ? "+" : "0";
+        int lim = LIMITS[c.pick(8)]; bool ntv = false; std::string vs; for (int x : v) vs += x == 1 ? "+" : x == 0 ? "0" : "-";
         c.desc << "public-API marking " << vs << " limit " << lim << " on {" << b.desc << "}";
-        std::string e = evaluate(z, t, v, lim, &sig, &ntv); zck_free(&z); close(fd);
-        c.label("public-api-marking"); if (ntv) c.nontrivial();
+        std::string e = evaluate3(z, t, v, lim, &sig, &ntv); zck_free(&z); close(fd);
+        c.label(keep_failed ? "public-api-marking-with-failed-chunks" : "public-api-marking"); if (ntv) c.nontrivial();
         if (!e.empty()) c.fail(sig, e);
         return;
     }
@@ -159,6 +188,7 @@ static void prop(Ctx &c) {
     if (want_steer) { pbt::Rng r(c.draw(0xffff)); for (size_t i = 1; i <= n; i++) v[i] = (i & 1) ^ (r.below(10) == 0); }   // mostly alternating: as many separate ranges as possible
     else for (size_t i = 1; i <= n; i++) v[i] = c.draw(dens + 1) == 0 ? 1 : 0;            // mostly missing, islands of valid chunks
     if (c.rarely(10)) std::fill(v.begin(), v.end(), 1);                                     // nothing missing at all
+    bool with_failed = c.gver >= 4 && !want_steer && c.rarely(3); if (with_failed) { pbt::Rng r(c.draw(0xffff)); for (size_t i = 1; i <= n; i++) if (r.below(6) == 0) v[i] = -1; }
     int lim = (want_steer || c.boolean()) ? -1 : LIMITS[c.pick(8)];
     std::string steer = "none";
     if (want_steer) {
@@ -186,8 +216,8 @@ static void prop(Ctx &c) {
     c.desc << (mode == 3 ? "medium" : "large") << " index: " << n << " chunks, limit " << lim << ", steering: " << steer;
     c.label(mode == 3 ? "medium" : "large"); if (steer != "none") c.label("boundary-fit");
     int fd; zckCtx *z = open_hdr(t.hdr, &fd); if (!z) c.fail("open", "synthetic header does not open");
-    set_flags(z, v); bool ntv = false; std::string e = evaluate(z, t, v, lim, &sig, &ntv); zck_free(&z); close(fd);
-    if (ntv) c.nontrivial();
+    set_flags(z, v); bool ntv = false; std::string e = evaluate3(z, t, v, lim, &sig, &ntv); zck_free(&z); close(fd);
+    if (ntv) c.nontrivial(); if (with_failed) c.label("failed-chunks-in-marking");
     if (!e.empty()) c.fail(sig, e);
 }
 
